@@ -185,7 +185,14 @@ def _found_arm_successes(ctx, F, g, blocks, sr, mode_params=()):
             continue
         inv = _negated(g, du, at['discr'])
         found = tg[0] if inv else at['otherwise']
-        out.append((a, g.reach_from([found], avoid=dead | {a}) & oks))
+        # on the found arm, a later test of a value BUILT from the flag (`found = if exists { Some(..) } else { None }`) cannot take its not-found edges
+        from util import derived_flag_switches
+        cut = set()
+        for a2, m in derived_flag_switches(g, du, flag_locals).items():
+            for x, fv in m.items():
+                if fv is False:
+                    cut.add((a2, x))
+        out.append((a, g.reach_from([found], avoid=dead | {a}, avoid_edges=cut) & oks))
     return out
 
 
